@@ -377,3 +377,89 @@ Proof.
   subst. congruence.
 Qed.
 End Induced.
+
+(* ------------------------------------------------------------------ declaring the meshes in another order *)
+(* (b) an imported triangle joins the points its file designates - whatever the position of its mesh in the list and
+   whatever the other meshes are *)
+Theorem imported_triangles_label_free ms t ims k lts :
+  import_points [] ms = (t, ims) -> (k < length ms)%nat ->
+  map_tris (nth k ims []) (m_tris (nth k ms (mkMesh [] []))) = Some lts ->
+  map (tri_points t) lts = map (tri_points (m_pts (nth k ms (mkMesh [] [])))) (m_tris (nth k ms (mkMesh [] []))).
+Proof.
+  intros I Hk M. destruct (import_points_spec _ _ _ _ I) as (_ & _ & N1 & _ & _).
+  eapply map_tris_points; [| |exact M].
+  - apply (import_points_lens _ _ _ _ I k Hk).
+  - intros a Ha. apply N1; auto.
+Qed.
+
+(* (a) the set of points, hence the number of vertex unknowns, does not depend on the order of the meshes *)
+Theorem import_points_order_free ms ms' t ims t' ims' : Permutation ms ms' ->
+  import_points [] ms = (t, ims) -> import_points [] ms' = (t', ims') -> Permutation t t' /\ length t' = length t.
+Proof.
+  intros P I I'.
+  destruct (import_points_spec _ _ _ _ I) as (_ & _ & _ & D1 & E1).
+  destruct (import_points_spec _ _ _ _ I') as (_ & _ & _ & D1' & E1').
+  assert (Pt : Permutation t t').
+  { apply NoDup_Permutation; [apply D1; constructor|apply D1'; constructor|].
+    intros q. rewrite E1, E1'. split; intros [[]|[m [Hm Hq]]]; right; exists m; split; auto.
+    - eapply Permutation_in; eauto.
+    - eapply Permutation_in; [apply Permutation_sym|]; eauto. }
+  split; auto. symmetry. apply Permutation_length; auto.
+Qed.
+
+(* (c) renumbering the meshes by an injective map in every interface of every domain *)
+Section RenumberMeshes.
+Variable pi : nat -> nat.
+Hypothesis pi_inj : forall a b, pi a = pi b -> a = b.
+
+Definition ren_gb (b : gbound) : gbound := mkGB (b_inside b) (b_if b) (map (fun om => (fst om, pi (snd om))) (b_om b)).
+
+Lemma om_find_ren m l : om_find (pi m) (map (fun om : Z * nat => (fst om, pi (snd om))) l) = om_find m l.
+Proof.
+  induction l as [|[o k] l IH]; simpl; auto.
+  destruct (Nat.eqb_spec k m) as [->|Hn]; [rewrite Nat.eqb_refl; auto|].
+  replace (Nat.eqb (pi k) (pi m)) with false; auto. symmetry. apply Nat.eqb_neq. intros C. apply Hn, pi_inj, C.
+Qed.
+
+Lemma mesh_orientation_ren d m : mesh_orientation (map ren_gb d) (pi m) = mesh_orientation d m.
+Proof. induction d as [|b d IH]; simpl; auto. rewrite om_find_ren, IH. reflexivity. Qed.
+
+Variables g g' : geom.
+Hypothesis Hd : g_doms g' = map (map ren_gb) (g_doms g).
+
+Lemma dom_ren k : dom g' k = map ren_gb (dom g k).
+Proof. unfold dom. rewrite Hd. change (@nil gbound) with (map ren_gb []). apply map_nth. Qed.
+
+Lemma domains_of_ren m : domains_of g' (pi m) = domains_of g m.
+Proof.
+  unfold domains_of. rewrite Hd, map_length. apply filter_ext. intros k. unfold dom_has_mesh.
+  rewrite dom_ren, mesh_orientation_ren. reflexivity.
+Qed.
+
+Lemma common_domains_ren m1 m2 : common_domains g' (pi m1) (pi m2) = common_domains g m1 m2.
+Proof. unfold common_domains. rewrite !domains_of_ren. reflexivity. Qed.
+
+Lemma relative_orientation_ren m1 m2 : relative_orientation g' (pi m1) (pi m2) = relative_orientation g m1 m2.
+Proof.
+  unfold relative_orientation. rewrite common_domains_ren.
+  destruct (Nat.eqb_spec m1 m2) as [->|Hn]; [rewrite Nat.eqb_refl; auto|].
+  replace (Nat.eqb (pi m1) (pi m2)) with false by (symmetry; apply Nat.eqb_neq; intros C; apply Hn, pi_inj, C).
+  destruct (common_domains g m1 m2) as [|k r]; auto. rewrite dom_ren, !mesh_orientation_ren. reflexivity.
+Qed.
+
+Lemma dom_contains_ren ins d : dom_contains ins (map ren_gb d) = dom_contains ins d.
+Proof. unfold dom_contains. induction d as [|b d IH]; simpl; auto. rewrite IH. reflexivity. Qed.
+
+Lemma domain_of_point_ren ins : domain_of_point g' ins = domain_of_point g ins.
+Proof.
+  unfold domain_of_point. rewrite Hd. generalize 0%nat. generalize (g_doms g). intros l.
+  induction l as [|d l IH]; intros k; simpl; auto.
+  rewrite dom_contains_ren, IH. reflexivity.
+Qed.
+
+Section F.
+Context {F : Type} (o : Ops F) (conds : list F).
+Lemma eval_common_ren f m1 m2 : eval_common o g' conds f (pi m1) (pi m2) = eval_common o g conds f m1 m2.
+Proof. unfold eval_common. rewrite common_domains_ren. reflexivity. Qed.
+End F.
+End RenumberMeshes.
